@@ -135,6 +135,30 @@ def main():
 
 def do_replay(path):
     rec = json.load(open(path))
+    if rec.get('kind') in ('obligation-not-discharged', 'structural') or (rec.get('kind') == 'obligation' and not rec.get('model')):
+        # no input to replay: re-run the obligation itself on the current tree
+        if rec.get('contract') == 'structural' or rec.get('kind') == 'structural':
+            from pyvc import modinfo
+            load_contracts()
+            import importlib
+            obs = []
+            for m in contract_modules():
+                for pr, sname, fn in getattr(importlib.import_module(m), 'STRUCTURAL', []):
+                    if pr == rec['property']:
+                        obs += fn(modinfo)
+            hit = [o for o in obs if o['oid'] == rec['obligation']]
+            ok = bool(hit) and all(o['verdict'] == 'proved' for o in hit)
+            print(json.dumps({'obligation': rec['obligation'], 'now': [o['verdict'] + ': ' + str(o.get('detail')) for o in hit] or 'not generated'}, indent=1))
+        else:
+            out = _verify_worker((rec['contract'], 10000, 3000, 2))
+            hit = [o for o in out.get('obligations', []) if o['oid'] == rec['obligation']]
+            ok = bool(hit) and all(o['verdict'] == 'proved' for o in hit)
+            print(json.dumps({'obligation': rec['obligation'], 'now': sorted({o['verdict'] for o in hit}) or 'not generated', 'crash': out.get('crash')}, indent=1))
+        if not ok:
+            print(f"VIOLATION property={rec['property']} replay={path} no-failing-input-found")
+            return 1
+        print('obligation discharged on the current tree')
+        return 0
     r = run_native(['replay'], {'records': [rec]})
     if 'crash' in r:
         print('CHECKER-ERROR replay runner:', r['crash'], r.get('stderr', '')[-500:])
